@@ -275,6 +275,40 @@ fn literal_cases(thorough: bool) -> Vec<String> {
             v.push(text);
         }
     }
+    // long literals (beyond one and two machine words), plain and with `_` separators in every arrangement of a small
+    // catalogue: every third digit from the right, a single separator at an early / word-boundary / late position, a
+    // doubled separator
+    for (prefix, digits) in [("", "1234567890"), ("0x", "9abcdef012345678"), ("0b", "10"), ("0o", "7012345")] {
+        let dg: Vec<char> = digits.chars().collect();
+        for len in [16usize, 17, 18, 19, 20, 21, 22, 36, 37, 40, 64, 65] {
+            let body: Vec<char> = (0..len).map(|i| dg[i % dg.len()]).collect();
+            let plain: String = body.iter().collect();
+            let mut variants: Vec<String> = vec![plain.clone()];
+            let mut grouped = String::new();
+            for (i, c) in body.iter().enumerate() {
+                if i > 0 && (len - i) % 3 == 0 {
+                    grouped.push('_');
+                }
+                grouped.push(*c);
+            }
+            variants.push(grouped);
+            for at in [1usize, 9, 16, 17, 18, 19, len - 1] {
+                if at < len {
+                    let mut t = plain.clone();
+                    t.insert(at, '_');
+                    variants.push(t.clone());
+                    t.insert(at, '_');
+                    variants.push(t);
+                }
+            }
+            for t in variants {
+                let text = format!("{}{}", prefix, t);
+                if !v.contains(&text) {
+                    v.push(text);
+                }
+            }
+        }
+    }
     v
 }
 
@@ -319,7 +353,7 @@ fn judge_literal(text: &str, l: &mut Local) {
 
 // ---- strings ------------------------------------------------------------------------------
 
-const STR_ATOMS: [&str; 12] = ["a", "Z", "é", "😀", "\\n", "\\0", "\\x41", "\\x7f", "\\u{e9}", "\\u{1F600}", "\\\\", "\\\""];
+const STR_ATOMS: [&str; 14] = ["a", "Z", "é", "😀", "\\n", "\\0", "\\x41", "\\x7f", "\\u{e9}", "\\u{1F600}", "\\\\", "\\\"", "\\u{142}", "€"];
 const STR_BAD: [&str; 6] = ["\\q", "\\x80", "\\x4", "\\u{110000}", "\\u{d800}", "\\u41"];
 
 fn string_sources(thorough: bool) -> Vec<String> {
